@@ -3,6 +3,7 @@
 
 #include <bluetoe/service_uuid.hpp>
 #include <bluetoe/attribute.hpp>
+#include <bluetoe/attribute_handle.hpp>
 #include <bluetoe/codes.hpp>
 #include <bluetoe/meta_tools.hpp>
 #include <bluetoe/meta_types.hpp>
@@ -344,20 +345,41 @@ namespace bluetoe {
             typedef typename find_if< ServiceList, equal_uuid >::type type;
         };
 
+        /*
+         * first handle and the handle behind the last handle of Service, if Service is the next service starting
+         * at StartHandle. Uses the mapping, that is used by the server to map attribute handles, to take
+         * attribute_handle<> and attribute_handles<> into account.
+         */
+        template < typename ... Options >
+        service< Options... > service_options( const service< Options... >* );
+
+        template < std::uint16_t StartHandle, typename Service >
+        struct service_handle_range;
+
+        template < std::uint16_t StartHandle, typename ... Options >
+        struct service_handle_range< StartHandle, service< Options... > >
+        {
+            static constexpr std::uint16_t first_handle = service_index_mapping< StartHandle, 0, Options... >::service_handle;
+            static constexpr std::uint16_t end_handle   = service_index_mapping< StartHandle, 0, Options... >::end_handle;
+        };
+
+        template < typename Service, std::uint16_t StartHandle >
+        using service_handle_range_t = service_handle_range< StartHandle, decltype( service_options( static_cast< const Service* >( nullptr ) ) ) >;
+
         template < typename ServiceList, typename Service, std::uint16_t Handle = 1 >
         struct service_handles;
 
         template < typename Service, typename ... Ss, std::uint16_t Handle >
         struct service_handles< std::tuple< Service, Ss... >, Service, Handle >
         {
-            static constexpr std::uint16_t service_attribute_handle = Handle;
-            static constexpr std::uint16_t end_service_handle       = Handle + Service::number_of_attributes - 1;
+            static constexpr std::uint16_t service_attribute_handle = service_handle_range_t< Service, Handle >::first_handle;
+            static constexpr std::uint16_t end_service_handle       = service_handle_range_t< Service, Handle >::end_handle - 1;
         };
 
         template < typename Service, typename S, typename ... Ss, std::uint16_t Handle >
         struct service_handles< std::tuple< S, Ss... >, Service, Handle >
         {
-            typedef service_handles< std::tuple< Ss... >, Service, Handle + S::number_of_attributes > next;
+            typedef service_handles< std::tuple< Ss... >, Service, service_handle_range_t< S, Handle >::end_handle > next;
 
             static constexpr std::uint16_t service_attribute_handle = next::service_attribute_handle;
             static constexpr std::uint16_t end_service_handle       = next::end_service_handle;
